@@ -204,6 +204,15 @@ func isSyncMutex(t types.Type) bool {
 	return n.Obj().Name() == "RWMutex" || n.Obj().Name() == "Mutex"
 }
 
+// sync.Once / sync.WaitGroup fields synchronise themselves
+func isSyncOther(t types.Type) bool {
+	n, ok := t.(*types.Named)
+	if !ok || n.Obj().Pkg() == nil || n.Obj().Pkg().Path() != "sync" {
+		return false
+	}
+	return n.Obj().Name() == "Once" || n.Obj().Name() == "WaitGroup"
+}
+
 // namedStruct: name of the package-local named struct type behind t (through one pointer).
 func (w *world) namedStruct(t types.Type) string {
 	if t == nil {
@@ -301,6 +310,14 @@ func (w *world) scanTypes() {
 	}
 	for t := range w.owned {
 		w.guardMu[t] = "state"
+	}
+	// structs guarded by something that is not an RWMutex field (conf guarded_types): e.g. the
+	// fields of ctxgroup.Group are written inside errOnce.Do only; Once.Do is modelled as an
+	// exclusive section of the pseudo-mutex named there.  Declared in the configuration, so
+	// that removing the Once does not remove the guard.
+	for t, m := range w.mc.GuardedTypes {
+		w.guardMu[t] = m
+		w.mutex(m)
 	}
 }
 
@@ -515,6 +532,21 @@ func (w *world) computeRelevant() {
 	}
 }
 
+func hasKind(n *Node, k Kind) bool {
+	if n.K == k || (n.K == KDefer && n.D == 'y' && k == KCallback) {
+		return true
+	}
+	if n.K == KGo {
+		return false // another goroutine
+	}
+	for _, c := range n.Kids {
+		if hasKind(c, k) {
+			return true
+		}
+	}
+	return false
+}
+
 func usesLabel(n *Node, l int) bool {
 	if n.K == KJump && n.Lbl == l {
 		return true
@@ -608,21 +640,23 @@ type gotoLbl struct {
 type loopLbl struct{ brk, cont int }
 
 type tr struct {
-	w           *world
-	fn          *Fn
-	info        *types.Info
-	nlbl        int
-	brk         []int
-	cont        []int
-	gotos       map[types.Object]*gotoLbl
-	lblOf       map[types.Object]*loopLbl
-	gotoTargets map[types.Object]bool
-	valueCtx    string
-	siteCount   map[string]int
-	inComm      bool // inside the communication of a select clause
-	confHalf    string
-	viaIndex    int                   // walking the container of an index expression
-	pubw        map[*ast.Ident]string // assignment targets that are captured variables written after publication
+	w               *world
+	fn              *Fn
+	info            *types.Info
+	nlbl            int
+	brk             []int
+	cont            []int
+	gotos           map[types.Object]*gotoLbl
+	lblOf           map[types.Object]*loopLbl
+	gotoTargets     map[types.Object]bool
+	valueCtx        string
+	siteCount       map[string]int
+	inComm          bool // inside the communication of a select clause
+	confHalf        string
+	viaIndex        int // walking the container of an index expression
+	inDefer         bool
+	doneNotDeferred bool
+	pubw            map[*ast.Ident]string // assignment targets that are captured variables written after publication
 }
 
 func (t *tr) newLbl() int { t.nlbl++; return t.nlbl }
@@ -683,6 +717,13 @@ func (t *tr) translate() {
 		t.pubw = t.w.publishedWrites(root)
 	}
 	t.fn.body = t.stmtList(t.bodyOf().List)
+	// WaitGroup.Done that is not deferred in a function that also makes a dynamic call: user
+	// code may panic and be recovered by a deferred recover of the same goroutine, the Done is
+	// skipped and the matching Wait blocks for ever.  Reported as a write nobody can guard.
+	if t.doneNotDeferred && hasKind(t.fn.body, KCallback) {
+		w := &Node{K: KWr, L: t.w.loc("waitgroup:"+t.fn.name+".Done-not-deferred-across-a-callback", neverHeld), Note: "WaitGroup.Done is not deferred"}
+		t.fn.body = seq(w, t.fn.body)
+	}
 }
 
 // ---- liveness environment ----
@@ -1219,6 +1260,9 @@ func (t *tr) call(e *ast.CallExpr, pre *[]*Node) *Node {
 				t.expr(recv, false, pre)
 				args()
 				t.w.seenSync[e.Pos()] = "WaitGroup." + callee.Name()
+				if callee.Name() == "Done" && !t.inDefer {
+					t.doneNotDeferred = true
+				}
 				if callee.Name() == "Wait" {
 					return &Node{K: KJoin}
 				}
@@ -1228,7 +1272,20 @@ func (t *tr) call(e *ast.CallExpr, pre *[]*Node) *Node {
 				t.w.seenSync[e.Pos()] = "Once." + callee.Name()
 				if len(e.Args) == 1 {
 					if lit, ok := unparen(e.Args[0]).(*ast.FuncLit); ok {
-						return &Node{K: KAlt, Kids: []*Node{{K: KCall, F: t.w.getLit(t.fn, lit)}, skip()}}
+						c := &Node{K: KCall, F: t.w.getLit(t.fn, lit)}
+						// X.once.Do(f) of a struct whose guard is that Once: an exclusive section
+						if sx, ok := unparen(recv).(*ast.SelectorExpr); ok {
+							if sel := t.info.Selections[sx]; sel != nil && sel.Kind() == types.FieldVal {
+								v := sel.Obj().(*types.Var)
+								owner := t.w.structOf[v]
+								if mu, ok := t.w.mc.GuardedTypes[owner]; ok && mu == owner+"."+v.Name() {
+									m := t.w.mutex(mu)
+									t.w.instNotes[mu+" <- "+normBase(exprString(sx.X))]++
+									return &Node{K: KAlt, Kids: []*Node{seq(&Node{K: KAcq, M: m, W: true, Note: "Once.Do"}, c, &Node{K: KRel, M: m, W: true, Note: "Once.Do"}), skip()}}
+								}
+							}
+						}
+						return &Node{K: KAlt, Kids: []*Node{c, skip()}}
 					}
 				}
 				args()
@@ -1564,7 +1621,7 @@ func (t *tr) access(e *ast.SelectorExpr, field *types.Var, wr bool, out *[]*Node
 	if owner == "" || !guarded {
 		return
 	}
-	if isSyncMutex(field.Type()) {
+	if isSyncMutex(field.Type()) || isSyncOther(field.Type()) {
 		t.setSeen(e.Sel.Pos(), "mutex")
 		return
 	}
@@ -1910,7 +1967,9 @@ func (t *tr) stmt(s ast.Stmt) *Node {
 		return seq(seq(pre...), &Node{K: KGo, Kids: []*Node{a}})
 	case *ast.DeferStmt:
 		var pre []*Node
+		t.inDefer = true
 		a := t.call(s.Call, &pre)
+		t.inDefer = false
 		var d *Node
 		switch {
 		case a == nil:
